@@ -615,18 +615,19 @@ func genCallCase(t *Tape, long bool) *CallCase {
 func registerC08() {
 	mk := func(name string, count map[string]int, long bool) *Workload {
 		return &Workload{
-			Name:  name,
-			Count: func(tier string) int { return count[tier] },
-			Gen:   func(i int, t *Tape, tier string) any { return genCallCase(t, long) },
-			Run:   func(c any, keep bool) Outcome { return runCallCase(c.(*CallCase), keep) },
-			New:   func() any { return &CallCase{} },
-			ShrinkEvals: map[bool]int{true: 120, false: 1500}[long],
+			Name:        name,
+			Count:       func(tier string) int { return count[tier] },
+			Gen:         func(i int, t *Tape, tier string) any { return genCallCase(t, long) },
+			Run:         func(c any, keep bool) Outcome { return runCallCase(c.(*CallCase), keep) },
+			New:         func() any { return &CallCase{} },
+			ShrinkEvals: map[bool]int{true: 160, false: 1500}[long],
+			Simplify:    simplifyCall,
 		}
 	}
 	register(&Property{
 		ID:    "C08",
 		Level: "exploration",
-		Rule: "seeded histories of operation elements (calls with 0-4 arguments against seeded arities, returns from inside for/while/for-in/if/match bodies, callee locals, globals, scalar parameters reassigned, nested calls, recursion, mutual recursion, next inside functions at depth 1 and 2, matches with expression and block bodies, a call in pattern position, exit at depth) driven through a fixed function library; short histories (1-30 operations) and long ones (4300-6100 operations, dominated by one operation kind); every output line predicted by the binding/scope model; END probe `name is unknown` for every parameter, callee local and match-bound name; frame depth back at rule level (hook); a trailing deep recursion (1500-10000) compared with the same recursion as the first operation of a fresh run. Distinct = distinct (arity, loop kind, history-length bucket, set of operation kinds); non-trivial = at least two operations.",
+		Rule:  "seeded histories of operation elements (calls with 0-4 arguments against seeded arities, returns from inside for/while/for-in/if/match bodies, callee locals, globals, scalar parameters reassigned, nested calls, recursion, mutual recursion, next inside functions at depth 1 and 2, matches with expression and block bodies, a call in pattern position, exit at depth) driven through a fixed function library; short histories (1-30 operations) and long ones (4300-6100 operations, dominated by one operation kind); every output line predicted by the binding/scope model; END probe `name is unknown` for every parameter, callee local and match-bound name; frame depth back at rule level (hook); a trailing deep recursion (1500-10000) compared with the same recursion as the first operation of a fresh run. Distinct = distinct (arity, loop kind, history-length bucket, set of operation kinds); non-trivial = at least two operations.",
 		Assumptions: []string{
 			"no fault or interleaving dimension exists for this property; the harness contributes seeded history search, per-step model conformance, minimisation and replay",
 			"containers passed as arguments are only read by the callee (aliasing belongs to C09)",
